@@ -39,14 +39,14 @@ PROPS = {
  ),
  "C03": dict(
     level="proof",
-    claim="Proof of NumPy's shape law, source-index law and element law for transpose (default and compile-time axes), moveaxis and swapaxes (compile-time axes incl. negative) at ranks 1..4 for every extent and index, and the same laws for run-time axes (transpose with a run-time permutation, moveaxis with run-time ints) and for arrays whose shape is a bounded run-time-length static_vector (the library's run-time-loop branches); reshape (run-time target shape), flatten and expand_dims keep C order in closed form (source index = unravel(ravel(dst, dst_shape), src_shape)) with the requested / NumPy shape, ranks up to 3x3; shape laws of shape_reshape incl. one -1, expand_dims and atleast_nd at index level; squeeze and flip are not decided.",
+    claim="Proof of NumPy's shape law, source-index law and element law for transpose (default and compile-time axes), moveaxis and swapaxes (compile-time axes incl. negative) at ranks 1..4 for every extent and index, and the same laws for run-time axes (transpose with a run-time permutation, moveaxis with run-time ints) and for arrays whose shape is a bounded run-time-length static_vector (the library's run-time-loop branches); reshape (run-time target shape), flatten and expand_dims keep C order in closed form (source index = unravel(ravel(dst, dst_shape), src_shape)) with the requested / NumPy shape, ranks up to 3x3; shape laws of shape_reshape incl. one -1, expand_dims and atleast_nd at index level; shape_squeeze keeps exactly the non-1 extents in order for every pattern of single extents at ranks 1..4 (view::squeeze is reshape to that shape); flip is decided only by the axis-normalisation rule.",
     note=E1_NOTE,
     technique=E1_TECH,
-    e1=[dict(tu="c03_rearrange.cpp"), dict(tu="c03b_dynamic.cpp"), dict(tu="c03c_reshape.cpp"), dict(tu="c15_args.cpp"), dict(tu="c02_capacity.cpp")],
+    e1=[dict(tu="c03_rearrange.cpp"), dict(tu="c03b_dynamic.cpp"), dict(tu="c03c_reshape.cpp"), dict(tu="c15_args.cpp"), dict(tu="c02_capacity.cpp"), dict(tu="c03d_squeeze.cpp")],
     e2=[dict(rule="R-AXISNORM")],
     rule=E1_RULE + "; E2: one instance per comparison of a position with an axis-valued expression in the anchor files (R-AXISNORM)",
     explanation="expected shape and source index are written from NumPy's definitions in the driver; the element law is equality of the bits loaded through the view and through the source at the expected index.",
-    not_decided="squeeze (data-dependent rank), flip (negative-step slice), reshape with -1 at view level, atleast_nd element map, heap (std::vector) shapes, permutation property as such (injectivity follows from the mixed-radix theorem, not discharged)",
+    not_decided="flip element law (negative-step slice), reshape with -1 at view level, atleast_nd element map, heap (std::vector) shapes, permutation property as such (injectivity follows from the mixed-radix theorem, not discharged)",
     assumptions=["destination index inside the view's shape"],
  ),
  "C04": dict(
@@ -188,11 +188,12 @@ PROPS["C12"] = dict(
 
 PROPS["C09"] = dict(
     level="other",
-    claim="In each of the 41 index resolve_optype specialisations with a compile-time branch, that branch is defined as the paired run-time function applied to to_value_v of the specialisation's own parameters in parameter order, and every ct<>/clipped<> constant it builds is an unmodified element of that call's result - so the value computed at compile time is the value the run-time code computes, by construction. Agreement between fixed-rank and run-time-length loop branches, STL vs non-STL and compiler independence are not decided (E1 instantiates std and utl container kinds for the functions it covers).",
-    note=E2_NOTE,
-    technique="static: custom libTooling extractor + by-construction rule on type-level branches (argument order, unmodified result)",
+    claim="In each of the 41 index resolve_optype specialisations with a compile-time branch, that branch is defined as the paired run-time function applied to to_value_v of the specialisation's own parameters in parameter order, and every ct<>/clipped<> constant it builds is an unmodified element of that call's result - so the value computed at compile time is the value the run-time code computes, by construction. For shape_squeeze - whose clipped-tuple, fixed-array and run-time-length branches are three separate pieces of code - E1 additionally proves that all of them (std::array, utl::array, bounded static_vector, tuple of clipped integers) return the same, NumPy, result for every pattern of single extents at ranks 1..4. Branch agreement of the other index functions is decided only as far as the E1 components of C01-C08 instantiate several kinds with one obligation text; STL vs non-STL and compiler independence are not decided.",
+    note=E2_NOTE + " " + E1_NOTE,
+    technique="static: custom libTooling extractor + by-construction rule on type-level branches (argument order, unmodified result); " + E1_TECH + " for branch agreement of shape_squeeze",
+    e1=[dict(tu="c03d_squeeze.cpp")],
     e2=[dict(rule="R-CONSTBRANCH")],
-    rule="E2: one instance per resolve_optype<void, index::TAG_t, ...> specialisation that builds constants; distinct by (file, specialisation arguments)",
+    rule=E1_RULE + "; E2: one instance per resolve_optype<void, index::TAG_t, ...> specialisation that builds constants; distinct by (file, specialisation arguments)",
     explanation="A hand-written type-level computation, a swapped to_value argument or a post-adjusted constant (ct<at(result,i)+1>) is a structural deviation and is reported with the specialisation.",
     not_decided="branch-to-branch agreement inside one run-time function, Boost/STL/utl container independence beyond E1's kinds, gcc vs clang",
     assumptions=["exception tables tools/constbranch_tables.json (12 entries, one reason each)"],
